@@ -82,6 +82,11 @@ USERS = [
     ("sum_arith_tuple", "u(S) :- S = #sum {{ X,P/3 : r(P,X) }}.", ["r2"]),
     ("sum_fun_tuple", "u(S) :- S = #sum {{ X,f(P) : r(P,X) }}.", ["r2"]),
     ("body_use", "u(P) :- r(P,X), X >= 2.", ["r2"]),
+    # another element / statement with the textually identical tuple whose value can coincide with the extreme value
+    ("min_twin", "#minimize {{ X@1,P : r(P,X) ; X@1,P : grp(P), X = 3 }}.", ["r2"]),
+    ("weak_twin", ":~ r(P,X). [X@1,P]\n:~ grp(P), X = 3. [X@1,P]", ["r2"]),
+    ("sum_twin", "u(S) :- S = #sum {{ X,P : r(P,X) ; X,P : grp(P), X = 3 }}.", ["r2"]),
+    ("weak_twin_unify", ":~ r(P,X). [X@1,P]\n:~ grp(G), Y = 3. [Y@1,G]", ["r2"]),
 ]
 
 
